@@ -48,6 +48,28 @@ func TestGovcReplayLedger(t *testing.T) {
 			fmt.Println("REPLAY-CONFIRMED RevertToSnapshot did not undo the writes of the reverted transaction")
 			return
 		}
+	case "height-index-survives-rollback":
+		// two blocks persisted, chain rolled back to 1: the height -> hash index must not answer for height 2 any more
+		for h := uint64(1); h <= 2; h++ {
+			ldg.PrepareBlock(nil, h)
+			ldg.SetBalance(a, big.NewInt(int64(h)))
+			accounts, root := ldg.FlushDirtyData()
+			bd := genBlockData(h, accounts, root)
+			bd.Block.BlockHash = types.NewHash([]byte{byte(h)})
+			ldg.PersistBlockData(bd)
+		}
+		before := ldg.GetBlockHash(2).String()
+		if err := ldg.Rollback(1); err != nil {
+			fmt.Println("REPLAY-NOT-CONFIRMED rollback failed:", err)
+			return
+		}
+		after := ldg.GetBlockHash(2)
+		_, gerr := ldg.GetBlock(2, false)
+		fmt.Printf("replay: GetBlockHash(2) before rollback=%s after rollback to 1=%s, GetBlock(2) error=%v, chain height=%d\n", before, after.String(), gerr, ldg.GetChainMeta().Height)
+		if after.String() != (&types.Hash{}).String() {
+			fmt.Println("REPLAY-CONFIRMED the block-height index of a rolled-back block is still answered")
+			return
+		}
 	default:
 		fmt.Println("REPLAY-NOT-CONFIRMED unknown scenario", in.Values["scenario"])
 		return
